@@ -31,22 +31,27 @@ TRUSTED = ['Excel operator classes transcribed from the property statement (rule
 
 
 def _operators_table(ctx):
+    """The module-level dict of operator records of the parser (found by content, not by name)."""
     m = ctx.mod('parser')
-    fn = m.func('FormulaParser.shunting_yard')
-    # the dict subscripted to obtain an operator record inside the loop
     cands = {}
-    for n in walk_local(fn):
-        if isinstance(n, ast.Subscript) and isinstance(n.value, ast.Name) \
-                and n.value.id in m.assigns:
+    for name in m.assigns:
+        node = m.assign(name)
+        if not isinstance(node, ast.Dict):
+            continue
+        try:
+            val = ctx.fold(node, m)
+        except Unfoldable:
+            continue
+        if isinstance(val, dict) and val and all(isinstance(v, Obj) for v in val.values()):
             try:
-                val = ctx.fold(n.value, m)
-            except Unfoldable:
+                for v in val.values():
+                    _prec_assoc(v)
+            except Unmodelled:
                 continue
-            if isinstance(val, dict) and val and all(isinstance(v, Obj) for v in val.values()):
-                cands[n.value.id] = val
-    if not cands:
-        raise AnchorMissing('no operator table (dict of records) subscripted in shunting_yard')
-    name = sorted(cands)[0]
+            cands[name] = val
+    if len(cands) != 1:
+        raise AnchorMissing(f'parser: {len(cands)} module-level tables of operator records (precedence, associativity)')
+    name = next(iter(cands))
     return m, name, cands[name]
 
 
@@ -105,36 +110,56 @@ def _tok_consts(ctx):
     return out
 
 
-def _operator_branch(ctx):
-    """The if/elif arm of the main loop of shunting_yard that handles operator tokens."""
+def _dispatch_arms(ctx):
+    """(module, shunting_yard, loop variable, [arms]) of the main token-dispatch if/elif chain."""
     m = ctx.mod('parser')
     fn = m.func('FormulaParser.shunting_yard')
-    consts = _tok_consts(ctx)
+    loops = [s_ for s_ in fn.body if isinstance(s_, ast.For) and isinstance(s_.target, ast.Name)]
+    main = None
+    for lp in loops:
+        chain = [s_ for s_ in lp.body if isinstance(s_, ast.If)]
+        if chain and any(isinstance(c, ast.Call) and isinstance(c.func, ast.Attribute) and c.func.attr == 'pop' for c in ast.walk(lp)) \
+                and any(isinstance(w, ast.While) for w in ast.walk(lp)):
+            main = lp
+    if main is None:
+        raise AnchorMissing('shunting_yard: main dispatch loop')
     arms = []
-    for n in walk_local(fn):
-        if isinstance(n, ast.If):
-            # an arm that contains a While loop popping from a stack and subscripts the table
-            has_while = any(isinstance(s, ast.While) for s in n.body)
-            subs = any(isinstance(x, ast.Subscript) and isinstance(x.value, ast.Name)
-                       and x.value.id.isupper() for s in n.body for x in ast.walk(s))
-            if has_while and subs:
-                arms.append(n)
-    if len(arms) != 1:
-        raise AnchorMissing(f'operator branch of shunting_yard: {len(arms)} candidate arms')
-    arm = arms[0]
-    # loop variable naming the incoming token: the name tested in the arm's condition
-    tok_names = [x.value.id for x in ast.walk(arm.test)
-                 if isinstance(x, ast.Attribute) and isinstance(x.value, ast.Name)]
-    if not tok_names:
-        raise Unmodelled('operator arm test does not read a token attribute')
-    # stack name: receiver of .pop() inside the while
-    wh = next(s for s in arm.body if isinstance(s, ast.While))
-    stack_names = [c.func.value.id for c in ast.walk(wh) if isinstance(c, ast.Call)
+    for st in main.body:
+        node = st
+        while isinstance(node, ast.If):
+            arms.append(node)
+            if len(node.orelse) == 1 and isinstance(node.orelse[0], ast.If):
+                node = node.orelse[0]
+            else:
+                break
+    return m, fn, main.target.id, arms
+
+
+def _operator_branch(ctx):
+    """The arm of the dispatch chain that an operator token selects (decided by evaluating the arm tests)."""
+    m, fn, tokname, arms = _dispatch_arms(ctx)
+    consts = _tok_consts(ctx)
+    probe = dict(tvalue='+', ttype=consts['TOK_TYPE_OP_IN'], tsubtype=consts['TOK_SUBTYPE_MATH'])
+    arm = None
+    for a in arms:
+        it = Interp(ctx.a, m, {tokname: Rec(**probe)}, self_class='pkg:parser:FormulaParser', scope_fn=fn)
+        try:
+            if it.truth(it.ev(a.test)):
+                arm = a
+                break
+        except Unmodelled as exc:
+            raise Unmodelled(f'dispatch arm test `{ast.unparse(a.test)[:40]}`: {exc}')
+    if arm is None:
+        raise AnchorMissing('shunting_yard: no arm of the dispatch chain accepts an infix operator token')
+    whiles = [w for st_ in arm.body for w in ast.walk(st_) if isinstance(w, ast.While)]
+    if len(whiles) != 1:
+        raise Unmodelled(f'operator arm has {len(whiles)} loops')
+    stack_names = [c.func.value.id for st_ in arm.body for c in ast.walk(st_) if isinstance(c, ast.Call)
                    and isinstance(c.func, ast.Attribute) and c.func.attr == 'pop'
                    and isinstance(c.func.value, ast.Name)]
     if not stack_names:
-        raise Unmodelled('no <stack>.pop() inside the operator loop')
-    return m, fn, arm, tok_names[0], stack_names[0], consts
+        raise Unmodelled('no <stack>.pop() inside the operator arm')
+    return m, fn, arm, tokname, stack_names[0], consts
 
 
 def _kinds(consts):
@@ -155,11 +180,12 @@ def rule_2(ctx):
     m, fn, arm, tokname, stackname, consts = _operator_branch(ctx)
     kinds = _kinds(consts)
     # the arm must be entered for every operator kind
-    wh = next(s for s in arm.body if isinstance(s, ast.While))
+    wh = next(w for st_ in arm.body for w in ast.walk(st_) if isinstance(w, ast.While))
     for inc, itok in kinds.items():
         for top, ttok in kinds.items():
             env = {tokname: Rec(**itok), stackname: [Rec(**ttok)], 'self': Rec()}
-            it = Interp(ctx.a, m, env, effect_receivers=('self', stackname), record_unknown=True)
+            it = Interp(ctx.a, m, env, effect_receivers=(stackname,), record_unknown=True, self_class='pkg:parser:FormulaParser',
+                        scope_fn=fn, call_models=_node_models())
             # evaluate the arm's own test first: operator tokens must reach this arm
             entered = it.truth(it.ev(arm.test))
             construct = f'pop-guard[top={top!r},incoming={inc!r}]'
@@ -183,11 +209,16 @@ def rule_2(ctx):
     for label, ttok in (('(', dict(tvalue='(', ttype=consts['TOK_TYPE_SUBEXPR'], tsubtype=consts['TOK_SUBTYPE_START'])),
                         ('func', dict(tvalue='SUM', ttype=consts['TOK_TYPE_FUNCTION'], tsubtype=''))):
         env = {tokname: Rec(**kinds['+']), stackname: [Rec(**ttok)], 'self': Rec()}
-        it = Interp(ctx.a, m, env, effect_receivers=('self', stackname), record_unknown=True)
+        it = Interp(ctx.a, m, env, effect_receivers=(stackname,), record_unknown=True, self_class='pkg:parser:FormulaParser',
+                        scope_fn=fn, call_models=_node_models())
         out = it.run(arm.body)
         ctx.expect(not (out.called(f'{stackname}.pop') and out.loop_entered), wh,
                    f'pop-guard[top={label},incoming=+]',
                    'an operator pops a parenthesis/function marker off the stack')
+
+
+def _node_models():
+    return {}
 
 
 def _pop_targets(ctx, stmts, stack_hint=None):
@@ -218,68 +249,92 @@ def _pop_targets(ctx, stmts, stack_hint=None):
     return out
 
 
+class _Operand(PyModel):
+    def __init__(self, label):
+        self.label = label
+
+    def eval(self, context):
+        return f'value of {self.label}'
+
+
 def rule_3(ctx):
+    """Reverse-Polish operand order, decided by partially evaluating build_ast and OperatorNode.eval on marker operands."""
     pm = ctx.mod('parser')
     build = pm.func('FormulaParser.build_ast')
     consts = _tok_consts(ctx)
-    infix_s = consts['TOK_TYPE_OP_IN']
-    # find the if that distinguishes infix from the rest inside the OperatorNode arm
-    infix_if = None
-    for n in walk_local(build):
-        if isinstance(n, ast.If) and const_compares(n.test, 'ttype', infix_s):
-            infix_if = n
-    if infix_if is None:
-        raise AnchorMissing('build_ast: no `ttype == "operator-infix"` test')
-    infix_t = _pop_targets(ctx, infix_if.body)
-    other_t = _pop_targets(ctx, infix_if.orelse)
-    if len(infix_t) != 2 or len(other_t) != 1:
-        raise Unmodelled(f'build_ast pops: infix {len(infix_t)}, prefix {len(other_t)}')
-    first_attr, second_attr = infix_t[0][1], infix_t[1][1]
-    prefix_attr = other_t[0][1]
-    # OperatorNode.eval: which attribute feeds which argument
+    infix_s, prefix_s = consts['TOK_TYPE_OP_IN'], consts['TOK_TYPE_OP_PRE']
+    loops = [n for n in build.body if isinstance(n, ast.For) and isinstance(n.target, ast.Name)]
+    if len(loops) != 1:
+        raise AnchorMissing('build_ast: loop over the reverse-Polish node list')
+    lp = loops[0]
+    nodevar = lp.target.id
+    stack_names = {c.func.value.id for c in ast.walk(lp) if isinstance(c, ast.Call) and isinstance(c.func, ast.Attribute)
+                   and c.func.attr == 'pop' and isinstance(c.func.value, ast.Name)}
+    if len(stack_names) != 1:
+        raise Unmodelled(f'build_ast pops from {sorted(stack_names)}')
+    stackvar = stack_names.pop()
+    AN = 'pkg:ast_nodes:'
+
+    def isinst(val, refs):
+        refs = refs if isinstance(refs, tuple) else (refs,)
+        return isinstance(val, Rec) and 'cls' in val.f and any(r and ctx.res.is_subclass(val.get('cls'), r) for r in refs)
+
+    def run(node, stack):
+        it = Interp(ctx.a, pm, {nodevar: node, stackvar: stack}, isinstance_fn=isinst, self_class='pkg:parser:FormulaParser',
+                    scope_fn=build, record_unknown=True)
+        return it.run(lp.body)
+    A, B = _Operand('A'), _Operand('B')
+    node = Rec(cls=AN + 'OperatorNode', ttype=infix_s, tvalue='-', tsubtype='math', left=None, right=None)
+    stack = [A, B]
+    run(node, stack)
+    ctx.expect(node.get('left') is A and node.get('right') is B, build, 'infix node: left <- first pushed, right <- last pushed',
+               f'for the reverse-Polish sequence A B - build_ast sets left={getattr(node.get("left"), "label", node.get("left"))}, '
+               f'right={getattr(node.get("right"), "label", node.get("right"))}: the operands of binary operators are swapped (A-B becomes B-A)')
+    ctx.expect(stack == [node], build, 'infix node replaces its two operands on the stack',
+               f'after an infix operator the stack holds {len(stack)} entries')
+    node = Rec(cls=AN + 'OperatorNode', ttype=prefix_s, tvalue='-', tsubtype='', left=None, right=None)
+    stack = [A, B]
+    run(node, stack)
+    ctx.expect(node.get('right') is B and node.get('left') is None and stack == [A, node], build, 'prefix node: right <- last pushed only',
+               'a prefix operator does not take exactly the last pushed operand as its operand')
+    fnode = Rec(cls=AN + 'FunctionNode', ttype=consts['TOK_TYPE_FUNCTION'], tvalue='F', tsubtype='', num_args=3, args=None)
+    X, C = _Operand('X'), _Operand('C')
+    stack = [X, A, B, C]
+    run(fnode, stack)
+    got = fnode.get('args')
+    ctx.expect(isinstance(got, list) and got == [A, B, C] and stack == [X, fnode], build, 'function node: arguments in written order',
+               f'F(A,B,C) gets its arguments as {[getattr(g, "label", g) for g in got] if isinstance(got, list) else got}: not in the order they were written')
+    # OperatorNode.eval: left value is the first argument of the operator function, right value the second
     am = ctx.mod('ast_nodes')
     ev = am.func('OperatorNode.eval')
-    infix_call = prefix_call = None
-    for n in walk_local(ev):
-        if isinstance(n, ast.If):
-            if const_compares(n.test, 'ttype', infix_s):
-                infix_call = _op_call(n.body)
-            elif const_compares(n.test, 'ttype', consts['TOK_TYPE_OP_PRE']):
-                prefix_call = _op_call(n.body)
-    if infix_call is None or prefix_call is None:
-        raise AnchorMissing('OperatorNode.eval: infix/prefix branches not found')
-    if len(infix_call.args) != 2 or len(prefix_call.args) != 1:
-        raise Unmodelled('operator function call arity')
+    seen = {}
 
-    def attr_read(arg):
-        attrs = {x.attr for x in ast.walk(arg) if isinstance(x, ast.Attribute)
-                 and isinstance(x.value, ast.Name) and x.value.id == 'self'}
-        return attrs
-
-    a0, a1 = attr_read(infix_call.args[0]), attr_read(infix_call.args[1])
-    ctx.expect(second_attr in a0 and first_attr not in a0, infix_call, 'infix arg0 <- second pop',
-               f'first argument of the operator function reads self.{sorted(a0)}, but the left operand '
-               f'(second value popped in build_ast) is stored in .{second_attr}')
-    ctx.expect(first_attr in a1 and second_attr not in a1, infix_call, 'infix arg1 <- first pop',
-               f'second argument of the operator function reads self.{sorted(a1)}, but the right operand '
-               f'(first value popped in build_ast) is stored in .{first_attr}')
-    p0 = attr_read(prefix_call.args[0])
-    ctx.expect(prefix_attr in p0, prefix_call, 'prefix arg <- single pop',
-               f'prefix operator reads self.{sorted(p0)} but build_ast stores its operand in .{prefix_attr}')
-    ctx.expect(first_attr != second_attr, infix_t[0][2], 'build_ast distinct operand slots',
-               'both pops are stored into the same attribute')
-    # the function looked up is keyed by the node's own operator text
-    for call, label in ((infix_call, 'infix'), (prefix_call, 'prefix')):
-        fnname = call.func.id if isinstance(call.func, ast.Name) else None
-        src = None
-        for n in walk_local(ev):
-            if isinstance(n, ast.Assign) and isinstance(n.targets[0], ast.Name) \
-                    and n.targets[0].id == fnname and flow.contains(_arm_of(n), call):
-                src = n.value
-        ok = isinstance(src, ast.Subscript) and isinstance(src.slice, ast.Attribute) \
-            and src.slice.attr == 'tvalue'
-        ctx.expect(ok, call, f'{label} dispatch keyed by self.tvalue',
-                   f'{label} operator function is not looked up by the node\'s own operator text')
+    def model(name):
+        def f(*a):
+            seen[name] = a
+            return Opaque(name)
+        return f
+    _, anode, infix = _table(ctx, 'ast_nodes', 'INFIX_OP_TO_FUNC')
+    _, pnode, prefix = _table(ctx, 'ast_nodes', 'PREFIX_OP_TO_FUNC')
+    models = {}
+    for tab in (infix, prefix):
+        for k_, v in tab.items():
+            if isinstance(v, Ref):
+                models[v.ref] = model(v.ref)
+    want_ref = infix.get('-').ref if isinstance(infix.get('-'), Ref) else None
+    it = Interp(ctx.a, am, {'self': Rec(ttype=infix_s, tvalue='-', tsubtype='math', left=A, right=B), 'context': Rec()},
+                call_models=models, self_class='pkg:ast_nodes:OperatorNode', scope_fn=ev)
+    it.run(ev.body)
+    ctx.expect(seen.get(want_ref) == ('value of A', 'value of B'), ev, 'infix eval: f(left value, right value) keyed by the operator text',
+               f'evaluating the node "A - B" calls {list(seen)} with {list(seen.values())}: expected the function registered for "-" '
+               'with (value of the left operand, value of the right operand)')
+    seen.clear()
+    want_ref = prefix.get('-').ref if isinstance(prefix.get('-'), Ref) else None
+    it = Interp(ctx.a, am, {'self': Rec(ttype=prefix_s, tvalue='-', tsubtype='', left=None, right=B), 'context': Rec()},
+                call_models=models, self_class='pkg:ast_nodes:OperatorNode', scope_fn=ev)
+    it.run(ev.body)
+    ctx.expect(seen.get(want_ref) == ('value of B',), ev, 'prefix eval: f(right value)',
+               f'evaluating the node "-B" calls {list(seen)} with {list(seen.values())}')
     ctx.floor(6, 'operand-order obligations')
 
 
@@ -539,7 +594,7 @@ def rule_5(ctx):
             tok = Rec(tvalue=sign, ttype=infix, tsubtype='')
             prevrec = Rec(tvalue='x', ttype=prev[0], tsubtype=prev[1]) if prev else None
             env = {tokvar: tok, listvar: _Tokens(prev is None, prevrec)}
-            it = Interp(ctx.a, tm, env, self_class='pkg:tokenizer:ExcelParser')
+            it = Interp(ctx.a, tm, env, self_class='pkg:tokenizer:ExcelParser', scope_fn=fn)
             out = it.run([sw])
             got = tok.get('ttype')
             if prev is None:
@@ -620,6 +675,14 @@ def rule_7(ctx):
     tm = ctx.mod('tokenizer')
     fn = tm.func('ExcelParser.getTokens')
     regexes = []
+    compiled = {}
+    for name in tm.assigns:
+        v = tm.assign(name)
+        if isinstance(v, ast.Call) and ctx.res.resolve(v.func, tm) == 'ext:re.compile' and v.args:
+            try:
+                compiled[name] = ctx.fold(v.args[0], tm)
+            except Unfoldable:
+                pass
     for n in walk_local(fn):
         if isinstance(n, ast.Call) and ctx.res.resolve(n.func, tm) in ('ext:re.match', 'ext:re.fullmatch', 'ext:re.search'):
             try:
@@ -628,6 +691,9 @@ def rule_7(ctx):
                 continue
             if isinstance(pat, str):
                 regexes.append((n, pat, ctx.res.resolve(n.func, tm)))
+        elif isinstance(n, ast.Call) and isinstance(n.func, ast.Attribute) and n.func.attr in ('match', 'fullmatch', 'search') \
+                and isinstance(n.func.value, ast.Name) and n.func.value.id in compiled and isinstance(compiled[n.func.value.id], str):
+            regexes.append((n, compiled[n.func.value.id], 'ext:re.' + n.func.attr))
     sn = [r for r in regexes if 'e' in r[1].lower()]
     if len(sn) != 1:
         raise AnchorMissing(f'scientific-notation regex: {len(sn)} candidates')
